@@ -173,6 +173,11 @@ func specProbeID(u *udpDriver, ttl uint8) uint16 {
 
 //@ func (*udpDriver).ReceiveProbe
 //@ safety C09 C14 C08
+// the reply handed to the engine is exactly what the matcher decided about the packet just read: every packet that parses
+// is given to the matcher (nothing is skipped), and nothing else produces a result
+//@ ensures[C01+C02+C04+C05.recv.pass]  ncalls("(*udpDriver).handleProbeLayers") == old(ncalls("(*udpDriver).handleProbeLayers")) + 1 ==> ret0 == lastres("(*udpDriver).handleProbeLayers", 0) && ret1 == lastres("(*udpDriver).handleProbeLayers", 1)
+//@ ensures[C01+C04.recv.only]          ret0 != nil ==> ncalls("(*udpDriver).handleProbeLayers") == old(ncalls("(*udpDriver).handleProbeLayers")) + 1
+//@ ensures[C02.recv.all]               ncalls(ReadAndParse) == old(ncalls(ReadAndParse)) + 1 && lastres(ReadAndParse, 0) == nil ==> ncalls("(*udpDriver).handleProbeLayers") == old(ncalls("(*udpDriver).handleProbeLayers")) + 1
 //@ requires[pre.nonnil]     u != nil && u.source != nil && u.parser != nil && u.parser.parserv4 != nil && u.parser.parserv6 != nil && u.config != nil
 //@ requires[C10.recv.open]  selb(isOpen, ref(u.source))
 //@ requires[pre.past]       forall(k, 0, 65536, u.sentProbes[k].sendTime <= now())
